@@ -86,11 +86,35 @@ def enc_tdata(t):
     ei = t.edge_index
     cols = [] if ei.dim() < 2 else [[int(a), int(b)] for a, b in ei.T.tolist()]
     ea = t.edge_attr
-    if ea is None or ea.dim() < 2:
+    if ea is None:
+        attrs = [[] for _ in cols]      # edge_attr=None: one EMPTY attribute row per column (see is_none_attr)
+    elif ea.dim() < 2:
         attrs = []
     else:
         attrs = [[dbl(v) for v in row] for row in ea.tolist()]
     return [x, cols, attrs]
+
+
+def is_none_attr(td):
+    """wire form of a Data object WITHOUT edge attributes (`edge_attr=None`): >= 1 column, one empty row per column.
+    The model needs no special case: it carries the (empty) attribute row of every kept column along."""
+    return len(td[1]) >= 1 and len(td[2]) == len(td[1]) and all(len(a) == 0 for a in td[2])
+
+
+def strip_attr(td):
+    return [td[0], td[1], [[] for _ in td[1]]]
+
+
+def _ea_tensor(attrs):
+    import torch
+    if any(v % 2 for row in attrs for v in row):
+        return torch.tensor([[v / 2 for v in row] for row in attrs], dtype=torch.float32)
+    return torch.tensor([[v // 2 for v in row] for row in attrs], dtype=torch.long)
+
+
+def _ei_tensor(cols):
+    import torch
+    return torch.tensor(cols, dtype=torch.long).T if cols else torch.tensor([]).T
 
 
 def enc_nxg(G):
@@ -109,12 +133,58 @@ def mk_data(td):
     from torch_geometric.data import Data
     x, cols, attrs = td
     xt = torch.tensor(x, dtype=torch.long)
-    ei = torch.tensor(cols, dtype=torch.long).T if cols else torch.tensor([]).T
-    if any(v % 2 for row in attrs for v in row):
-        ea = torch.tensor([[v / 2 for v in row] for row in attrs], dtype=torch.float32)
-    else:
-        ea = torch.tensor([[v // 2 for v in row] for row in attrs], dtype=torch.long)
+    ei = _ei_tensor(cols)
+    ea = None if is_none_attr(td) else _ea_tensor(attrs)
     return Data(x=xt, edge_index=ei, edge_attr=ea)
+
+
+# ---------------------------------------------------------------------------
+# the FORM of the index argument (nodes / edges / start_nodes).  graph.py converts anything that is not a tensor with
+# torch.tensor(...) (docstring: "a list of ..."); prune is annotated `start_nodes: torch.Tensor`, documented as "a list"
+# and indexes with the argument.  The model does not see the form: the answer must be that of the list form.
+# Fixed shares (chosen from r.rng; tag arg_form=*).
+# ---------------------------------------------------------------------------
+INDEX_FORMS = (("list", 35), ("tensor", 30), ("numpy", 15), ("tuple", 12), ("tensor_int32", 8))
+# prune: a TUPLE is neither in the annotation nor in the docstring and is NOT a list of start nodes for tensor indexing
+# (D_sum[(0, 1)] is the single entry D_sum[0, 1]): the unmutated library silently answers with row 0 alone.  Generated
+# (5%) but out of the verdict (in_domain=False, tag arg_form=tuple:undocumented_for_prune); reported as a finding.
+PRUNE_FORMS = (("tensor", 40), ("list", 30), ("numpy", 15), ("tensor_int32", 10), ("tuple", 5))
+
+
+def pick_form(rng, table=INDEX_FORMS):
+    t = rng.random() * sum(w for _, w in table)
+    for f, w in table:
+        t -= w
+        if t < 0:
+            return f
+    return table[-1][0]
+
+
+def as_form(vals, form):
+    import torch
+    vals = [int(v) for v in vals]
+    if form == "list":
+        return list(vals)
+    if form == "tuple":
+        return tuple(vals)
+    if form == "tensor":
+        return torch.tensor(vals, dtype=torch.long)
+    if form == "tensor_int32":
+        return torch.tensor(vals, dtype=torch.int32)
+    if form == "numpy":
+        import numpy as np
+        return np.array(vals, dtype=np.int64)
+    raise ValueError("unknown argument form %r" % (form,))
+
+
+def form_tags(form, op=None):
+    if op == "prune" and form == "tuple":
+        return ("arg_form=tuple:undocumented_for_prune",)
+    return ("arg_form=%s" % form,)
+
+
+def form_in_domain(form, op=None):
+    return not (op == "prune" and form == "tuple")
 
 
 # ---------------------------------------------------------------------------
@@ -162,36 +232,34 @@ def impl_frombatch(td, bv, tf):
     return [enc_nxg(G) for G in its_from_torch(d, node_feature_transform=_nft(tf))]
 
 
-def impl_nodeind(obj, S, tf):
+def impl_nodeind(obj, S, tf, form="list"):
     from fgutils.torch import its_to_torch, node_induced_subgraph
     g = as_graph(obj)
     t = its_to_torch(obj, node_feature_transform=_nf(tf), edge_feature_transform=_ef(tf))
     order = list(g.nodes)
-    return enc_tdata(node_induced_subgraph(t, [order.index(s) for s in S]))
+    return enc_tdata(node_induced_subgraph(t, as_form([order.index(s) for s in S], form)))
 
 
-def impl_edgeind(obj, E, tf, as_tensor=False):
-    import torch
+def impl_edgeind(obj, E, tf, form="list"):
     from fgutils.torch import its_to_torch, edge_induced_subgraph
     t = its_to_torch(obj, node_feature_transform=_nf(tf), edge_feature_transform=_ef(tf))
     cols = [c for k in E for c in (2 * k, 2 * k + 1)]
-    return enc_tdata(edge_induced_subgraph(t, torch.tensor(cols) if as_tensor else cols))
+    return enc_tdata(edge_induced_subgraph(t, as_form(cols, form)))
 
 
-def impl_nodeind_t(td, nodes):
+def impl_nodeind_t(td, nodes, form="list"):
     from fgutils.torch import node_induced_subgraph
-    return enc_tdata(node_induced_subgraph(mk_data(td), list(nodes)))
+    return enc_tdata(node_induced_subgraph(mk_data(td), as_form(nodes, form)))
 
 
-def impl_edgeind_t(td, cols):
+def impl_edgeind_t(td, cols, form="list"):
     from fgutils.torch import edge_induced_subgraph
-    return enc_tdata(edge_induced_subgraph(mk_data(td), list(cols)))
+    return enc_tdata(edge_induced_subgraph(mk_data(td), as_form(cols, form)))
 
 
-def impl_prune(td, starts, r):
-    import torch
+def impl_prune(td, starts, r, form="tensor"):
     from fgutils.torch import prune
-    return enc_tdata(prune(mk_data(td), torch.tensor(list(starts), dtype=torch.long), radius=r))
+    return enc_tdata(prune(mk_data(td), as_form(starts, form), radius=r))
 
 
 def impl_prune_rc(td, r):
@@ -370,6 +438,58 @@ def case_batch(objs, tf, origin, form_rng=None):
                 tags=("batch", "tf=%d" % tf, "batch_k=%d" % len(objs), origin) + (("input_form",) + tuple(sorted(set(forms))) if forms else ()))
 
 
+def size_tag(n):
+    return "nodes=%s" % ("<10" if n < 10 else "10-60" if n <= 60 else ">60")
+
+
+def none_tag(td):
+    return ("edge_attr=None",) if is_none_attr(td) else ()
+
+
+def case_prune(td, S, r, form, origin, tags=(), meta=None):
+    out = call_impl(impl_prune, td, S, r, form)
+    return Case([Atom("C18"), Atom("prune"), td, S, r], out, in_domain=form_in_domain(form, "prune"),
+                meta=dict(meta or {}, origin=origin, arg_form=form),
+                nontrivial_key=("p", sx(td), tuple(S), r, form),
+                tags=("prune", "radius=%s" % (r if r <= 6 else ">6"), "starts=%s" % ("single" if len(S) == 1 else "set"), origin,
+                      size_tag(len(td[0]))) + form_tags(form, "prune") + none_tag(td) + tuple(tags))
+
+
+def case_nodeind_t(td, nodes, form, origin, tags=()):
+    out = call_impl(impl_nodeind_t, td, nodes, form)
+    return Case([Atom("C18"), Atom("nodeind_t"), td, nodes], out, meta={"origin": origin, "arg_form": form},
+                nontrivial_key=("nit", sx(td), tuple(nodes), form),
+                tags=("node_induced", origin, size_tag(len(td[0]))) + form_tags(form) + none_tag(td) + tuple(tags))
+
+
+def case_edgeind_t(td, E, form, origin, tags=()):
+    out = call_impl(impl_edgeind_t, td, E, form)
+    return Case([Atom("C18"), Atom("edgeind_t"), td, E], out, meta={"origin": origin, "arg_form": form},
+                nontrivial_key=("eit", sx(td), tuple(E), form),
+                tags=("edge_induced", origin, size_tag(len(td[0]))) + form_tags(form) + none_tag(td) + tuple(tags))
+
+
+def case_nodeind(obj, S, tf, form, origin, tags=()):
+    g = as_graph(obj)
+    e = enc_its(g)
+    out = call_impl(impl_nodeind, obj, S, tf, form)
+    nodes = list(g.nodes)
+    return Case([Atom("C18"), Atom("nodeind"), tf, e, S], out, meta={"origin": origin, "arg_form": form},
+                nontrivial_key=("ni", tf, sx(e), tuple(S), form),
+                tags=("node_induced", "tf=%d" % tf, origin, size_tag(len(nodes)),
+                      "order=%s" % ("graph" if S == [x for x in nodes if x in set(S)] else "permuted")) + form_tags(form) + tuple(tags))
+
+
+def case_edgeind(obj, E, tf, form, origin, tags=()):
+    g = as_graph(obj)
+    e = enc_its(g)
+    out = call_impl(impl_edgeind, obj, E, tf, form)
+    return Case([Atom("C18"), Atom("edgeind"), tf, e, E], out, meta={"origin": origin, "arg_form": form},
+                nontrivial_key=("ei", tf, sx(e), tuple(E), form),
+                tags=("edge_induced", "tf=%d" % tf, origin, size_tag(g.number_of_nodes()),
+                      "subset=%s" % ("all" if len(set(E)) == g.number_of_edges() else "proper")) + form_tags(form) + tuple(tags))
+
+
 def small_subsets(rng, items, limit):
     subs = [list(c) for k in range(1, len(items) + 1) for c in itertools.combinations(items, k)]
     if len(subs) > limit:
@@ -385,25 +505,40 @@ def cases_induced(rng, obj, tf, origin, limit=40):
     for E in small_subsets(rng, list(range(m)), limit):
         if rng.random() < 0.3:
             rng.shuffle(E)
-        out = call_impl(impl_edgeind, obj, E, tf, rng.random() < 0.5)
-        cases.append(Case([Atom("C18"), Atom("edgeind"), tf, e, E], out, meta={"origin": origin},
-                          nontrivial_key=("ei", tf, sx(e), tuple(E)),
-                          tags=("edge_induced", "tf=%d" % tf, origin, "subset=%s" % ("all" if len(E) == m else "proper"))))
+        cases.append(case_edgeind(obj, E, tf, pick_form(rng), origin))
     nodes = list(g.nodes)
     for S in small_subsets(rng, nodes, limit):
         if not any(g.has_edge(a, b) for a in S for b in S):
             continue
         if rng.random() < 0.4:
             rng.shuffle(S)
-        out = call_impl(impl_nodeind, obj, S, tf)
-        cases.append(Case([Atom("C18"), Atom("nodeind"), tf, e, S], out, meta={"origin": origin},
-                          nontrivial_key=("ni", tf, sx(e), tuple(S)),
-                          tags=("node_induced", "tf=%d" % tf, origin,
-                                "order=%s" % ("graph" if S == [x for x in nodes if x in S] else "permuted"))))
+        cases.append(case_nodeind(obj, S, tf, pick_form(rng), origin))
     return cases
 
 
-def cases_prune(rng, td, origin, radii=(0, 1, 2, 3, 4), all_singles=True, n_sets=4):
+def cases_induced_big(rng, obj, tf, origin, k=2):
+    """graphs too large for all subsets: `k` random node subsets that induce >= 1 edge and `k` random edge subsets"""
+    g = as_graph(obj)
+    nodes, m = list(g.nodes), g.number_of_edges()
+    cases = []
+    for _ in range(k):
+        E = rng.sample(range(m), rng.randint(1, m))
+        if rng.random() < 0.5:
+            E.sort()
+        cases.append(case_edgeind(obj, E, tf, pick_form(rng), origin))
+        u, v = rng.choice(list(g.edges))
+        S = set(rng.sample(nodes, rng.randint(2, len(nodes)))) | {u, v}
+        S = [x for x in nodes if x in S]
+        if rng.random() < 0.5:
+            rng.shuffle(S)
+        cases.append(case_nodeind(obj, S, tf, pick_form(rng), origin))
+    return cases
+
+
+NONE_SHARE = 0.15
+
+
+def cases_prune(rng, td, origin, radii=(0, 1, 2, 3, 4), all_singles=True, n_sets=4, none_share=NONE_SHARE):
     n = len(td[0])
     cases = []
     starts = [[i] for i in range(n)] if all_singles else [[rng.randrange(n)]]
@@ -420,10 +555,166 @@ def cases_prune(rng, td, origin, radii=(0, 1, 2, 3, 4), all_singles=True, n_sets
             # implementation accumulated them; the property speaks of all radii
             rs.append(rng.choice([40, 110, 130, 300]))
         for r in rs:
-            out = call_impl(impl_prune, td, S, r)
-            cases.append(Case([Atom("C18"), Atom("prune"), td, S, r], out, meta={"origin": origin},
-                              nontrivial_key=("p", sx(td), tuple(S), r),
-                              tags=("prune", "radius=%d" % r, "starts=%s" % ("single" if len(S) == 1 else "set"), origin)))
+            # edge_attr=None (15%): prune documents / handles samples without edge attributes
+            t = strip_attr(td) if (none_share and rng.random() < none_share) else td
+            cases.append(case_prune(t, S, r, pick_form(rng, PRUNE_FORMS), origin))
+    return cases
+
+
+# ---------------------------------------------------------------------------
+# same-object histories: the operators are modelled as stateless functions of the Data object AS IT IS WHEN THE CALL IS
+# MADE.  A history is one Data object, a list of steps (JSON lists) applied in order to that one object:
+#   edits  ["set_ei", cols]            sample.edge_index = <new tensor>      (same number of columns)
+#          ["set_graph", cols, attrs]  edge_index and edge_attr re-assigned together (attrs [[]..] = None)
+#          ["set_x", x]                sample.x = <new tensor>               (same or more rows)
+#          ["set_ea", attrs]           sample.edge_attr = <new tensor> / None
+#          ["ip_ei", k, a, b]          sample.edge_index[0, k] = a; sample.edge_index[1, k] = b   (in place)
+#          ["ip_x", i, row]            sample.x[i] = tensor(row)                                  (in place)
+#          ["ip_ea", k, row]           sample.edge_attr[k] = tensor(row)                          (in place, doubled ints)
+#   calls  ["prune", starts, r, form] / ["prunerc", r] / ["nodeind", nodes, form] / ["edgeind", cols, form]
+# Every call becomes a normal Case whose request is read off the object immediately before the call (enc_tdata);
+# meta["history"] = {td0, steps up to and including the call}: replay re-runs all of it on one object.
+# ---------------------------------------------------------------------------
+EDITS = ("set_ei", "set_graph", "set_x", "set_ea", "ip_ei", "ip_x", "ip_ea")
+CALLS = ("prune", "prunerc", "nodeind", "edgeind")
+
+
+def apply_step(sample, st):
+    """apply one step to the one Data object; for a call -> (request, implementation output), for an edit -> None"""
+    import torch
+    from fgutils.torch import prune, node_induced_subgraph, edge_induced_subgraph
+    from fgutils.torch.utils import prune_rc
+    k = st[0]
+    if k == "set_ei":
+        sample.edge_index = _ei_tensor(st[1])
+    elif k == "set_graph":
+        sample.edge_index = _ei_tensor(st[1])
+        sample.edge_attr = None if is_none_attr([None, st[1], st[2]]) else _ea_tensor(st[2])
+    elif k == "set_x":
+        sample.x = torch.tensor(st[1], dtype=torch.long)
+    elif k == "set_ea":
+        sample.edge_attr = None if st[1] is None else _ea_tensor(st[1])
+    elif k == "ip_ei":
+        sample.edge_index[0, st[1]] = st[2]
+        sample.edge_index[1, st[1]] = st[3]
+    elif k == "ip_x":
+        sample.x[st[1]] = torch.tensor(st[2], dtype=sample.x.dtype)
+    elif k == "ip_ea":
+        sample.edge_attr[st[1]] = torch.tensor([v / 2 for v in st[2]]).to(sample.edge_attr.dtype)
+    else:
+        before = enc_tdata(sample)
+        if k == "prune":
+            out = call_impl(lambda: enc_tdata(prune(sample, as_form(st[1], st[3]), radius=st[2])))
+            return [Atom("C18"), Atom("prune"), before, list(st[1]), st[2]], out
+        if k == "prunerc":
+            out = call_impl(lambda: enc_tdata(prune_rc(sample, radius=st[1])))
+            return [Atom("C18"), Atom("prunerc"), before, st[1]], out
+        if k == "nodeind":
+            out = call_impl(lambda: enc_tdata(node_induced_subgraph(sample, as_form(st[1], st[2]))))
+            return [Atom("C18"), Atom("nodeind_t"), before, list(st[1])], out
+        if k == "edgeind":
+            out = call_impl(lambda: enc_tdata(edge_induced_subgraph(sample, as_form(st[1], st[2]))))
+            return [Atom("C18"), Atom("edgeind_t"), before, list(st[1])], out
+        raise ValueError("unknown history step %r" % (st,))
+    return None
+
+
+def run_history(td0, steps):
+    """re-run a recorded history on ONE fresh Data object -> (request, output) of the LAST step (a call)"""
+    sample = mk_data(td0)
+    res = None
+    for st in steps:
+        res = apply_step(sample, st)
+    return res
+
+
+def _rand_cols(rng, n, m, symmetric):
+    cols = []
+    while len(cols) < m:
+        a, b = rng.sample(range(n), 2)
+        cols.append([a, b])
+        if symmetric and len(cols) < m:
+            cols.append([b, a])
+    return cols
+
+
+def gen_edit(rng, td):
+    """one random in-place edit that keeps the object well formed (td = its state now)"""
+    x, cols, attrs = td
+    n, m, none = len(x), len(cols), is_none_attr(td)
+    vals = [0, 2, 2, 4, 6]
+    kind = rng.choice(EDITS)
+    if kind == "ip_ea" and none:
+        kind = "ip_ei"
+    if kind == "set_ei":
+        return ["set_ei", _rand_cols(rng, n, m, rng.random() < 0.6)]
+    if kind == "set_graph":
+        m2 = rng.randint(1, 2 * n)
+        cols2 = _rand_cols(rng, n, m2, rng.random() < 0.6)
+        attrs2 = [[] for _ in cols2] if rng.random() < 0.2 else [[rng.choice(vals), rng.choice(vals)] for _ in cols2]
+        return ["set_graph", cols2, attrs2]
+    if kind == "set_x":
+        return ["set_x", [[rng.choice([1, 6, 7, 8, 16, 17, 35])] for _ in range(n + rng.choice([0, 0, 1, 3]))]]
+    if kind == "set_ea":
+        if rng.random() < 0.25:
+            return ["set_ea", None]
+        return ["set_ea", [[rng.choice(vals), rng.choice(vals)] for _ in range(m)]]
+    if kind == "ip_ei":
+        a, b = rng.sample(range(n), 2)
+        return ["ip_ei", rng.randrange(m), a, b]
+    if kind == "ip_x":
+        return ["ip_x", rng.randrange(n), [rng.choice([1, 6, 7, 8, 16, 17, 35])]]
+    return ["ip_ea", rng.randrange(m), [rng.choice(vals), rng.choice(vals)]]
+
+
+def gen_call(rng, td):
+    x, cols, attrs = td
+    n, m = len(x), len(cols)
+    op = rng.choice(["prune", "prune", "prune", "prunerc", "nodeind", "nodeind", "edgeind", "edgeind"])
+    if op == "prunerc" and (is_none_attr(td) or not has_rc(td) or any(len(a) != 2 for a in attrs)
+                            or not all([b, a] in cols for a, b in cols)):
+        op = "prune"
+    if op == "prune":
+        form = pick_form(rng, PRUNE_FORMS)
+        if form == "tuple":
+            form = "list"            # the tuple probe of prune is out of the verdict: not inside histories
+        return ["prune", rng.sample(range(n), rng.randint(1, min(n, 3))), rng.randint(0, 4), form]
+    if op == "prunerc":
+        return ["prunerc", rng.randint(0, 3)]
+    if op == "nodeind":
+        # the property speaks of node subsets that induce >= 1 edge: the ends of one column are always selected
+        u, v = rng.choice(cols)
+        rest = [i for i in range(n) if i not in (u, v)]
+        nodes = [u, v] + rng.sample(rest, rng.randint(0, len(rest)))
+        rng.shuffle(nodes)
+        return ["nodeind", nodes, pick_form(rng)]
+    E = [rng.randrange(m) for _ in range(rng.randint(1, min(m, 5)))]
+    return ["edgeind", E, pick_form(rng)]
+
+
+def history_cases(rng, td0, n_calls=3):
+    sample = mk_data(td0)
+    steps, cases, edits = [], [], []
+    for c in range(n_calls):
+        if c > 0:
+            for _ in range(rng.randint(1, 3)):
+                st = gen_edit(rng, enc_tdata(sample))
+                apply_step(sample, st)
+                steps.append(st)
+                edits.append(st[0])
+        st = gen_call(rng, enc_tdata(sample))
+        req, out = apply_step(sample, st)
+        steps.append(st)
+        td = req[2]
+        form = st[-1] if st[0] != "prunerc" else None
+        cases.append(Case(req, out, meta={"origin": "history", "arg_form": form,
+                                          "history": {"td0": td0, "steps": [list(s) for s in steps], "call_index": len(steps) - 1}},
+                          nontrivial_key=("h", sx(req), form, c > 0),
+                          tags=("same_object_history", st[0] if st[0] != "prunerc" else "prune_rc",
+                                "history:%s" % ("first_call" if c == 0 else "later_call_after_in_place_edit"), size_tag(len(td[0])))
+                          + tuple("edit_before=" + e for e in sorted(set(edits)))
+                          + (form_tags(form) if form else ()) + none_tag(td)))
+        edits = []
     return cases
 
 
@@ -523,25 +814,17 @@ def corpus_cases(rng):
                 k = case_batch([parse(p) for p in c["patterns"]], c["tf"], "corpus")
             elif op == "prune":
                 td = tensor_of(obj_of(c))
-                out = call_impl(impl_prune, td, c["starts"], c["radius"])
-                k = Case([Atom("C18"), Atom("prune"), td, c["starts"], c["radius"]], out, meta={"origin": "corpus"},
-                         nontrivial_key=("p", sx(td), tuple(c["starts"]), c["radius"]),
-                         tags=("prune", "corpus", "radius=%d" % c["radius"],
-                               "starts=%s" % ("single" if len(c["starts"]) == 1 else "set")))
+                ks = [case_prune(t, c["starts"], c["radius"], f, "corpus")
+                      for f, _ in PRUNE_FORMS if form_in_domain(f, "prune") for t in (td, strip_attr(td))]
             elif op == "edgeind":
-                o = obj_of(c)
-                out = call_impl(impl_edgeind, o, c["edges"], c["tf"])
-                k = Case([Atom("C18"), Atom("edgeind"), c["tf"], enc_its(o), c["edges"]], out, meta={"origin": "corpus"},
-                         nontrivial_key=("ei", c["tf"], sx(enc_its(o)), tuple(c["edges"])), tags=("edge_induced", "corpus"))
+                ks = [case_edgeind(obj_of(c), c["edges"], c["tf"], f, "corpus") for f, _ in INDEX_FORMS]
             elif op == "nodeind":
-                o = obj_of(c)
-                out = call_impl(impl_nodeind, o, c["nodes"], c["tf"])
-                k = Case([Atom("C18"), Atom("nodeind"), c["tf"], enc_its(o), c["nodes"]], out, meta={"origin": "corpus"},
-                         nontrivial_key=("ni", c["tf"], sx(enc_its(o)), tuple(c["nodes"])), tags=("node_induced", "corpus"))
+                ks = [case_nodeind(obj_of(c), c["nodes"], c["tf"], f, "corpus") for f, _ in INDEX_FORMS]
             else:
                 raise ValueError("unknown corpus op %r" % op)
-            k.meta["what"] = c.get("what")
-            cases.append(k)
+            for k in ([k] if op in ("roundtrip", "batch") else ks):
+                k.meta["what"] = c.get("what")
+                cases.append(k)
     return cases
 
 
@@ -624,6 +907,8 @@ def run(tier, seed):
     n_ind = 50 if quick else 2000
     n_prune = 50 if quick else 2000
     n_raw = 300 if quick else 10000
+    n_big = 40 if quick else 1500
+    n_hist = 150 if quick else 5000
     pool = []
     for k in range(n_rt):
         tf = rng.choice([0, 0, 1, 2])
@@ -657,16 +942,35 @@ def run(tier, seed):
             continue
         cases += cases_prune(rng, td, "its_to_torch(random-graph)", all_singles=(k % 3 == 0), n_sets=2)
         cases += cases_prune_rc(td, "its_to_torch(random-graph)")
-    for k in range(n_raw):
-        td = rand_tensor(rng)
+    for k in range(n_big):
+        # graphs of 10-60 nodes: induced sub-graphs on random subsets, prune with radii 0-6 and larger start sets
+        obj = rand_graph(rng, n=rng.randint(10, 60), extra=rng.randint(0, 8), half=rng.random() < 0.5)
+        cases += cases_induced_big(rng, obj, rng.choice([0, 0, 1, 2]), "random-graph", k=2)
+        td = call_impl(tensor_of, obj)
+        if isinstance(td, ImplError):
+            continue
         n = len(td[0])
-        # raw tensor graphs: directed, parallel columns, isolated rows
+        for _ in range(3):
+            S = rng.sample(range(n), rng.randint(1, 5))
+            t = strip_attr(td) if rng.random() < NONE_SHARE else td
+            cases.append(case_prune(t, S, rng.randint(0, 6), pick_form(rng, PRUNE_FORMS), "its_to_torch(random-graph)"))
+        if k % 4 == 0:
+            cases += cases_prune_rc(td, "its_to_torch(random-graph)", radii=(rng.randint(0, 4),))
+    for k in range(n_hist):
+        # ONE Data object, several operator calls, in-place edits between them (no state kept per object)
+        big = k % 5 == 0
+        td = rand_tensor(rng, n=rng.randint(10, 30) if big else rng.randint(3, 9), symmetric=rng.random() < 0.7)
+        if rng.random() < NONE_SHARE:
+            td = strip_attr(td)
+        cases += history_cases(rng, td, n_calls=rng.randint(2, 4))
+    for k in range(n_raw):
+        # raw tensor graphs: directed, parallel columns, isolated rows; every 8th of 10-60 rows
+        td = rand_tensor(rng, n=rng.randint(10, 60) if k % 8 == 1 else None)
+        n = len(td[0])
+        tdn = strip_attr(td) if rng.random() < NONE_SHARE else td        # edge_attr=None (15%)
         S = rng.sample(range(n), rng.randint(1, min(n, 3)))
         rad = rng.randint(0, 4)
-        out = call_impl(impl_prune, td, S, rad)
-        cases.append(Case([Atom("C18"), Atom("prune"), td, S, rad], out, meta={"origin": "raw"},
-                          nontrivial_key=("p", sx(td), tuple(S), rad),
-                          tags=("prune", "radius=%d" % rad, "raw-tensor", "starts=%s" % ("single" if len(S) == 1 else "set"))))
+        cases.append(case_prune(tdn, S, rad, pick_form(rng, PRUNE_FORMS), "raw-tensor"))
         if k % 3 == 0 and all([b, a] in td[1] for a, b in td[1]):
             # prune_rc only on symmetric tensors (the form ITS graphs have): which end of a column
             # names the reaction-centre node is not observable there
@@ -676,14 +980,12 @@ def run(tier, seed):
             E = [rng.randrange(m) for _ in range(rng.randint(1, min(m, 5)))]
             if rng.random() < 0.6:
                 E = sorted(set(E))
-            out = call_impl(impl_edgeind_t, td, E)
-            cases.append(Case([Atom("C18"), Atom("edgeind_t"), td, E], out, meta={"origin": "raw"},
-                              nontrivial_key=("eit", sx(td), tuple(E)), tags=("edge_induced", "raw-tensor")))
+            tdn = strip_attr(td) if rng.random() < NONE_SHARE else td
+            cases.append(case_edgeind_t(tdn, E, pick_form(rng), "raw-tensor"))
             nodes = rng.sample(range(n), rng.randint(2, n))
             if any(a in nodes and b in nodes for a, b in td[1]):
-                out = call_impl(impl_nodeind_t, td, nodes)
-                cases.append(Case([Atom("C18"), Atom("nodeind_t"), td, nodes], out, meta={"origin": "raw"},
-                                  nontrivial_key=("nit", sx(td), tuple(nodes)), tags=("node_induced", "raw-tensor")))
+                tdn = strip_attr(td) if rng.random() < NONE_SHARE else td
+                cases.append(case_nodeind_t(tdn, nodes, pick_form(rng), "raw-tensor"))
         if k % 4 == 0:
             # raw batches: concatenate 1-6 symmetric raw tensors by hand and convert back
             parts = [rand_tensor(rng, n=rng.randint(2, 5), symmetric=True) for _ in range(rng.randint(1, 6))]
@@ -715,6 +1017,11 @@ def run(tier, seed):
         "_build_its are modelled (C18.NxG.addEdge)",
         "the model counts walks in unbounded Nat; since the repair 756ce97 the implementation clamps each adjacency power to 0/1, so dense high-radius cases are in domain (K24 at radius 40 and "
         "radii 40-300 on generated graphs)",
+        "the tensor operators are modelled as stateless functions of the Data object as it is when the call is made; the model does not see the "
+        "FORM of the index argument (list / tensor / tuple / numpy array): the answer must be that of the list form; edge_attr=None travels as one empty "
+        "attribute row per column (harness/c18.py is_none_attr), which the model carries along like any other row",
+        "a tuple as start_nodes of prune is outside the documented forms (annotation torch.Tensor, docstring 'a list'): tensor indexing reads it as ONE "
+        "matrix entry, the library silently prunes around row 0 only; generated at 5% but never decides the verdict (tag arg_form=tuple:undocumented_for_prune)",
         "custom feature transforms are exercised through three fixed families (C18.nfOf/efOf/nftOf and their Python "
         "mirrors in harness/c18.py); the theorems quantify over all transforms",
     ]
@@ -724,8 +1031,14 @@ def run(tier, seed):
              "0..n-1 / 1..n / shuffled / sparse; None, 0, 1, 1.5, 2, 3 orders), one graph per element of the reference table; "
              "x transforms {default, 2 custom}; batches of 1-6; ITSDataset; 12% of the generated round-trip / batch inputs and every library object "
              "handed to its_to_torch in another FORM (extra attributes, numpy ids / half orders, nx.freeze, sub-graph view, list labels; tags variant=*); every edge subset / edge-inducing node subset of "
-             "small graphs; prune from every single node and random start sets, radii 0-4, on converted and raw (directed, "
-             "parallel-column) tensors; prune_rc; non-trivial = distinct (operation, input) with >= 1 edge",
+             "small graphs, random edge / node subsets of graphs of 10-60 nodes; prune from every single node and random start sets, "
+             "radii 0-4 (0-6 on 10-60 nodes), on converted and raw (directed, parallel-column, every 8th of 10-60 rows) tensors; prune_rc; "
+             "the index argument of every operator in every accepted FORM at fixed shares (nodes / edges: list 35, int64 tensor 30, numpy 15, tuple 12, "
+             "int32 tensor 8; start_nodes: tensor 40, list 30, numpy 15, int32 tensor 10, tuple 5 = out of domain; tags arg_form=*), the corpus operator "
+             "cases in every form; 15% of the prune / raw induced inputs with edge_attr=None (tag edge_attr=None); same-object histories: 2-4 operator "
+             "calls (prune / prune_rc / node_induced / edge_induced, mixed) on ONE Data object of 3-30 rows with 1-3 in-place edits between calls "
+             "(edge_index / x / edge_attr re-assigned or written in place; tags same_object_history, edit_before=*), each call judged for the object as it is at call time; "
+             "non-trivial = distinct (operation, input, argument form) with >= 1 edge",
         checker_cmd="cd lean && lake build FGVerif.Proofs.C18 && lake env lean FGVerif/Audit/C18.lean",
         explanation="theorems in lean/FGVerif/Proofs/C18.lean (+C18Reach.lean) about Model/C18.lean; model tied to fgutils.torch by "
                     "differential testing of real tensors; executable specs (round-trip isomorphism, reference periodic table, "
@@ -776,8 +1089,17 @@ def replay(path):
     if not prepare(r, PROOFS, "C18"):
         return 2
     ints = lambda l: [int(v) for v in l]
-    form = (d.get("meta") or {}).get("variant")
-    if op == "roundtrip" and isinstance(form, str) and form != "variant=plain":
+    meta = d.get("meta") or {}
+    form = meta.get("variant")
+    af = meta.get("arg_form")
+    if af:
+        print("REPLAY re-applying the recorded argument form: arg_form=%s" % af)
+    if meta.get("history"):
+        h = meta["history"]
+        print("REPLAY re-running the recorded history (%d steps) on ONE Data object; judging its last call" % len(h["steps"]))
+        rq, out = run_history(h["td0"], h["steps"])
+        c = Case(rq, out)
+    elif op == "roundtrip" and isinstance(form, str) and form != "variant=plain":
         import random
         print("REPLAY re-applying the recorded input form: %s" % form)
         c = case_roundtrip(dec_its(req[3]), int(req[2]), "replay", form_rng=random.Random(d.get("seed", 0)),
@@ -791,19 +1113,19 @@ def replay(path):
         c = Case([Atom("C18"), Atom("frombatch"), int(req[2]), td, bv], call_impl(impl_frombatch, td, bv, int(req[2])))
     elif op == "nodeind":
         g, S = dec_its(req[3]), ints(req[4])
-        c = Case([Atom("C18"), Atom("nodeind"), int(req[2]), enc_its(g), S], call_impl(impl_nodeind, g, S, int(req[2])))
+        c = Case([Atom("C18"), Atom("nodeind"), int(req[2]), enc_its(g), S], call_impl(impl_nodeind, g, S, int(req[2]), af or "list"))
     elif op == "edgeind":
         g, E = dec_its(req[3]), ints(req[4])
-        c = Case([Atom("C18"), Atom("edgeind"), int(req[2]), enc_its(g), E], call_impl(impl_edgeind, g, E, int(req[2])))
+        c = Case([Atom("C18"), Atom("edgeind"), int(req[2]), enc_its(g), E], call_impl(impl_edgeind, g, E, int(req[2]), af or "list"))
     elif op == "nodeind_t":
         td, ns = dec_td(req[2]), ints(req[3])
-        c = Case([Atom("C18"), Atom("nodeind_t"), td, ns], call_impl(impl_nodeind_t, td, ns))
+        c = Case([Atom("C18"), Atom("nodeind_t"), td, ns], call_impl(impl_nodeind_t, td, ns, af or "list"))
     elif op == "edgeind_t":
         td, es = dec_td(req[2]), ints(req[3])
-        c = Case([Atom("C18"), Atom("edgeind_t"), td, es], call_impl(impl_edgeind_t, td, es))
+        c = Case([Atom("C18"), Atom("edgeind_t"), td, es], call_impl(impl_edgeind_t, td, es, af or "list"))
     elif op == "prune":
         td, ss, rad = dec_td(req[2]), ints(req[3]), int(req[4])
-        c = Case([Atom("C18"), Atom("prune"), td, ss, rad], call_impl(impl_prune, td, ss, rad))
+        c = Case([Atom("C18"), Atom("prune"), td, ss, rad], call_impl(impl_prune, td, ss, rad, af or "tensor"))
     elif op == "prunerc":
         td, rad = dec_td(req[2]), int(req[3])
         c = Case([Atom("C18"), Atom("prunerc"), td, rad], call_impl(impl_prune_rc, td, rad))
